@@ -16,6 +16,42 @@ def opt_s(v):
     return L.opt(None if v is None else L.s(v))
 
 
+WIRE_TYPES = ("COUNTER", "GAUGE", "HISTOGRAM", "SUMMARY")
+
+
+def wire_action(jd):
+    """the metric action deep.grpc.convert_response builds from protobuf Metric messages of these definitions"""
+    from deepproto.proto.tracepoint.v1.tracepoint_pb2 import Metric, LabelExpression as PLabel, TracePointConfig, MetricType
+    from deepproto.proto.common.v1.common_pb2 import AnyValue
+    from deep.grpc import convert_response
+    from deep.api.tracepoint.trigger import LocationAction
+
+    def any_value(v):
+        if isinstance(v, bool):
+            return AnyValue(bool_value=v)
+        if isinstance(v, int):
+            return AnyValue(int_value=v)
+        if isinstance(v, float):
+            return AnyValue(double_value=v)
+        return AnyValue(string_value=v)
+    ms = []
+    for m in jd:
+        labels = []
+        for l in m["labels"]:
+            if l["expr"]:
+                labels.append(PLabel(key=l["key"], expression=l["expr"]))
+            elif l["static"] is not None:
+                labels.append(PLabel(key=l["key"], static=any_value(l["static"])))
+            else:
+                labels.append(PLabel(key=l["key"]))
+        ms.append(Metric(name=m["name"], type=MetricType.Value(m["type"]), labelExpressions=labels, expression=m["expr"],
+                         namespace=m["namespace"], help=m["help"], unit=m["unit"]))
+    tp = TracePointConfig(ID="tp-m", path="/app/m.py", line_number=7, args={"snapshot": "no_collect"}, metrics=ms)
+    triggers = convert_response([tp])
+    acts = [a for t in triggers for a in t.actions if a.action_type == LocationAction.ActionType.Metric]
+    return acts[0] if len(acts) == 1 else None
+
+
 def run(ctx):
     import logging
     from ..lib.quiet import quiet_logging
@@ -55,10 +91,31 @@ def run(ctx):
                            type=rng.choice(["COUNTER", "GAUGE", "HISTOGRAM", "SUMMARY", "counter", "Gauge"]), labels=labels,
                            expr=rng.choice([None, None, ""] + EXPRS), namespace=rng.choice([None, "", "shop"]),
                            help=rng.choice([None, "some help"]), unit=rng.choice([None, "ms"])))
-        for m in jd:
-            defs.append(MetricDefinition(m["name"], m["type"], [LabelExpression(l["key"], l["static"], l["expr"]) for l in m["labels"]],
-                                         m["expr"], m["namespace"], m["help"], m["unit"]))
-        action = LocationAction("tp-m", None, {"metrics": defs, "fire_count": "-1", "fire_period": "0"}, LocationAction.ActionType.Metric)
+        # a third of the cases take the definitions THROUGH THE WIRE: protobuf Metric messages (static label values as AnyValue:
+        # text, int, double, bool, or none) converted by deep.grpc.convert_response, the way the service delivers them
+        wire = rng.random() < 0.35 and all(m["type"] in WIRE_TYPES for m in jd)
+        if wire:
+            for m in jd:
+                for l in m["labels"]:
+                    if l["expr"]:
+                        l["static"] = None                  # one of the two on the wire (a oneof)
+                    elif l["static"] is not None:
+                        l["static"] = rng.choice([l["static"], 2.5, True, 0, "x y"])
+                # what the wire carries for an absent text is the empty text
+                m["namespace"], m["help"], m["unit"], m["expr"] = m["namespace"] or "", m["help"] or "", m["unit"] or "", m["expr"] or ""
+            action = wire_action(jd)
+            defs = action.config["metrics"] if action is not None else None
+            if action is None or len(defs) != len(jd):
+                ctx.case(dict(metrics=jd, wire=True), nontrivial=True, bucket="wire")
+                ctx.fail("convert_response produced %s for %d metric definitions" % (
+                    "no metric action" if action is None else "%d definitions" % len(defs), len(jd)), dict(metrics=jd, wire=True), tag="wire-definitions")
+                continue
+            action.config["fire_count"], action.config["fire_period"] = "-1", "0"
+        else:
+            for m in jd:
+                defs.append(MetricDefinition(m["name"], m["type"], [LabelExpression(l["key"], l["static"], l["expr"]) for l in m["labels"]],
+                                             m["expr"], m["namespace"], m["help"], m["unit"]))
+            action = LocationAction("tp-m", None, {"metrics": defs, "fire_count": "-1", "fire_period": "0"}, LocationAction.ActionType.Metric)
         world.install([Trigger(LineLocation("m.py", 7, Location.Position.START), [action])])
         hits = rng.choice([1, 1, 2, 3])
         clock_ok = True
@@ -70,9 +127,12 @@ def run(ctx):
         cnt, _ = e2.stats_of(action)
         if len(firsts) < 12:
             firsts.append((jd, nproc, dict(loc), hits, calls))
-        j = dict(metrics=jd, processors=nproc, hits=hits)
-        ctx.case(dict(metrics=jd, processors=nproc), nontrivial=nproc > 0 and any(m["expr"] or m["labels"] for m in jd),
-                 bucket="procs=%d" % nproc)
+        j = dict(metrics=jd, processors=nproc, hits=hits, wire=wire)
+        if wire:
+            for c in calls:      # an absent help / unit has no representation of its own on the wire
+                c["help"], c["unit"] = c["help"] or "", c["unit"] or ""
+        ctx.case(dict(metrics=jd, processors=nproc, wire=wire), nontrivial=nproc > 0 and any(m["expr"] or m["labels"] for m in jd),
+                 bucket="procs=%d%s" % (nproc, " wire" if wire else ""))
         if escaped is not None:
             ctx.fail("the handler raised %r" % (escaped,), j, tag="raised")
             continue
